@@ -63,3 +63,16 @@ Example C18_ex_reflected :
   In (headers_ACAH, ReqSlice headers_ACRH) (fst (pserve c18_st false c18_preflight [])) /\
   In (headers_ACAO, ReqSlice headers_Origin) (fst (pserve c18_st false c18_actual [])).
 Proof. vm_compute; tauto. Qed.
+
+(* ---- tie to the source: on the preflight path (the only one fed with attacker-sized ACRM / ACRH values)
+   the source contains no allocating write at all except the append to a pre-existing Vary: every other
+   write installs a shared singleton, a configuration-owned slice or the request's own slice
+   (Gen/ProvSrc.v is regenerated from middleware.go on every run). ---- *)
+Require Import Gen.ProvSrc Proofs.ProvSrcP.
+
+Theorem C18_source_preflight_path_reflects :
+  forallb (fun w => match snd w with WShared _ | WReq _ | WCfg _ | WCopy | WAppend => true | _ => false end)
+          (go_writes_handleCORSPreflight ++ go_writes_processOriginForPreflight ++ go_writes_processACRPN ++
+           go_writes_processACRM ++ go_writes_processACRH) = true.
+Proof. vm_compute. reflexivity. Qed.
+Print Assumptions C18_source_preflight_path_reflects.
